@@ -1,6 +1,7 @@
 package main
 
 import (
+	"sort"
 	"fmt"
 	"go/token"
 	"strings"
@@ -111,7 +112,7 @@ func init() {
 	register(&Prop{
 		ID:         "C07",
 		Title:      "Update expressions apply exactly their actions and nothing else",
-		Decided:    "(R1) the update parser, the action dispatch and the clause-continuation list agree on the four actions SET, ADD, REMOVE, DELETE, and + / − are the only arithmetic operators; (R2) per action, the effects reachable from its handler are the ones the action may have: SET assigns (attribute or path), REMOVE removes, ADD adds to a number/set or creates the attribute only when it is undefined, DELETE removes set members and never creates an attribute; (R3) on a left-hand side the handler does not support, every handler returns an error object – never a silent success without effect; (R4) the working environment is applied to the item only after parse and evaluation succeeded (shared with C08.R2); (R5) 'removed means gone': when the environment is written back, attributes of the item that the environment no longer holds are deleted; (R6) 'nothing else changed': only attributes targeted by an action are written back; (R7) '+' computes left + right and '−' left − right, in that order; (R8) every right-hand side reads the pre-update item (two-phase evaluation).",
+		Decided:    "(R1) the update parser, the action dispatch and the clause-continuation list agree on the four actions SET, ADD, REMOVE, DELETE, and + / − are the only arithmetic operators; (R2) per action, the effects reachable from its handler are the ones the action may have: SET assigns (attribute or path), REMOVE removes, ADD adds to a number/set or creates the attribute only when it is undefined, DELETE removes set members and never creates an attribute; (R3) on a left-hand side the handler does not support, every handler returns an error object – never a silent success without effect; (R4) the working environment is applied to the item only after parse and evaluation succeeded (shared with C08.R2); (R5) 'removed means gone': when the environment is written back, attributes of the item that the environment no longer holds are deleted; (R6) 'nothing else changed': only attributes targeted by an action are written back; (R7) '+' computes left + right and '−' left − right, in that order; (R8) every right-hand side reads the pre-update item (two-phase evaluation); (R9) because the write-back re-serialises every attribute (R6), an untouched attribute keeps its type only if every object kind writes its type-carrying field non-nil, also when empty (= C10.R7 on the object side); (R10) the functions usable in an update (list_append, if_not_exists, …) and the arithmetic of SET build new objects: none of them stores into an object it received as an operand, because operands are the environment's own objects of OTHER attributes.",
 		NotDecided: "the resulting values themselves: list_append / if_not_exists results, nested path semantics, set arithmetic, number formatting (C12).",
 		Rules: []RuleDef{
 			{ID: "R1", Desc: "the four actions agree across parser, dispatch and continuation list (T-TABLE)", Run: c07R1},
@@ -128,6 +129,19 @@ func init() {
 			{ID: "R6", Desc: "only targeted attributes are written back (SSA)", Run: c07R6},
 			{ID: "R7", Desc: "arithmetic label ↔ operator agreement (T-TABLE)", Run: c07R7},
 			{ID: "R8", Desc: "right-hand sides read the pre-update item (two-phase idiom)", Run: c07R8},
+			{ID: "R9", Desc: "re-serialising an untouched attribute keeps its type: object → Item sets the type field non-nil (= C10.R7a)", Run: func(e *Engine) {
+				before := len(e.obs)
+				c10R7(e)
+				kept := e.obs[:before]
+				for _, o := range e.obs[before:] {
+					if strings.HasPrefix(o.Construct, "lang.") {
+						o.Rule = "R9"
+						kept = append(kept, o)
+					}
+				}
+				e.obs = kept
+			}},
+			{ID: "R10", Desc: "functions of the update grammar do not modify their operands (T-PURE)", Run: c07R10},
 		},
 	})
 }
@@ -591,3 +605,141 @@ func c07R8(e *Engine) {
 }
 
 var _ = fmt.Sprint
+
+// c07R10: `SET a = list_append(b, :v)` hands the function the environment's object of attribute b. A function that
+// extends or rewrites that object in place changes b – an attribute the expression does not target. Every function in the
+// function table (and the update arithmetic) must leave the objects behind its parameters unmodified: no store through a
+// value derived from a parameter.
+func c07R10(e *Engine) {
+	g := e.global("lang", "functions")
+	if !e.anchor("R10", "lang.functions (function table)", g == nil) {
+		return
+	}
+	// the functions stored in the table
+	var fns []*ssa.Function
+	seen := map[*ssa.Function]bool{}
+	scan := append([]*ssa.Function{}, e.funcs("lang")...)
+	for role, sp := range e.SSA {
+		if f := sp.Func("init"); f != nil && role == "lang" {
+			scan = append(scan, f) // the table is a package-level literal: its stores are in the synthetic init
+		}
+	}
+	for _, fn := range scan {
+		instrs(fn, func(in ssa.Instruction) {
+			st, ok := in.(*ssa.Store)
+			if !ok {
+				return
+			}
+			fa, ok := st.Addr.(*ssa.FieldAddr)
+			if !ok || fieldOf(fa).Name() != "Value" || namedOf(fa.X.Type()) == nil || namedOf(fa.X.Type()).Obj().Name() != "Function" {
+				return
+			}
+			for _, f := range e.closuresOf(st.Val, nil, 0) {
+				if !seen[f] {
+					seen[f] = true
+					fns = append(fns, f)
+				}
+			}
+		})
+	}
+	if iu := e.fn("lang", "evalInfixUpdate"); iu != nil && !seen[iu] {
+		fns = append(fns, iu)
+	}
+	sort.Slice(fns, func(i, j int) bool { return fns[i].Pos() < fns[j].Pos() })
+	n := 0
+	for _, fn := range fns {
+		if fn.Blocks == nil {
+			continue
+		}
+		n++
+		construct := e.fname(fn) + ":operands-unmodified"
+		// values derived from the parameters: elements, type assertions, field loads, phis
+		der := map[ssa.Value]bool{}
+		for _, p := range fn.Params {
+			der[p] = true
+		}
+		for changed := true; changed; {
+			changed = false
+			instrs(fn, func(in ssa.Instruction) {
+				v, ok := in.(ssa.Value)
+				if !ok || der[v] {
+					return
+				}
+				from := false
+				switch x := in.(type) {
+				case *ssa.TypeAssert:
+					from = der[x.X]
+				case *ssa.Extract:
+					from = der[x.Tuple]
+				case *ssa.UnOp:
+					from = x.Op == token.MUL && der[x.X]
+				case *ssa.IndexAddr:
+					from = der[x.X]
+				case *ssa.FieldAddr:
+					from = der[x.X]
+				case *ssa.Index:
+					from = der[x.X]
+				case *ssa.Field:
+					from = der[x.X]
+				case *ssa.Slice:
+					from = der[x.X]
+				case *ssa.Lookup:
+					from = der[x.X]
+				case *ssa.ChangeType:
+					from = der[x.X]
+				case *ssa.Phi:
+					for _, ed := range x.Edges {
+						if der[ed] {
+							from = true
+						}
+					}
+				}
+				if from {
+					der[v] = true
+					changed = true
+				}
+			})
+		}
+		bad := ""
+		instrs(fn, func(in ssa.Instruction) {
+			switch x := in.(type) {
+			case *ssa.Store:
+				if der[x.Addr] {
+					bad = "a store through an operand at " + e.ipos(in)
+				}
+			case *ssa.MapUpdate:
+				if der[x.Map] {
+					bad = "a map update on an operand at " + e.ipos(in)
+				}
+			case *ssa.Call:
+				if staticCalleeName(x) == "builtin.delete" && der[x.Call.Args[0]] {
+					bad = "a delete on an operand at " + e.ipos(in)
+				}
+				if staticCalleeName(x) == "builtin.copy" && der[x.Call.Args[0]] {
+					bad = "a copy into an operand at " + e.ipos(in)
+				}
+				// mutating methods of the object types called on an operand
+				if c := x.Call.StaticCallee(); c != nil && c.Signature.Recv() != nil && len(x.Call.Args) > 0 && der[x.Call.Args[0]] {
+					switch c.Name() {
+					case "Add", "Delete", "Remove", "Set", "Compact":
+						bad = "the mutating method " + e.fname(c) + " is called on an operand at " + e.ipos(in)
+					}
+				}
+				if x.Call.IsInvoke() && der[x.Call.Value] {
+					switch x.Call.Method.Name() {
+					case "Add", "Delete", "Remove", "Set", "Compact":
+						bad = "the mutating method " + x.Call.Method.Name() + " is called on an operand at " + e.ipos(in)
+					}
+				}
+			}
+		})
+		if bad != "" {
+			e.fail("R10", construct, e.pos(fn.Pos()), "%s: the operand is the environment's own object of another attribute, which is written back with the item – an attribute the expression does not target changes", bad)
+		} else {
+			e.pass("R10", construct, e.pos(fn.Pos()), "no store, map update, delete or mutating method reaches an object received as an operand")
+		}
+	}
+	if n < 4 {
+		e.fail("R10", "count:R10", "-", "only %d functions of the update grammar found", n)
+	}
+}
